@@ -1,6 +1,7 @@
 """Contracts on pyasn1/codec/ber/encoder.py (framing: identifier octets, length octets, EOO)."""
 from pyvc.core import (Contract, Loop, PInt, PBool, PTup, PObj, PConst, POpt, POneOf, POptions, PBytes, PIntTuple,
-                       module_int_consts, Obj, FnV)
+                       PRecSeq, PSeqKindBy, PDerived, CallContract, module_int_consts, Obj, FnV, SeqV, Tup, ExcV, _Raise,
+                       mk_seq, Length, inr, class_consts, lit_seq)
 
 F = 'pyasn1/codec/ber/encoder.py'
 TAG = module_int_consts('pyasn1/type/tag.py')   # tagClassUniversal ... tagFormatConstructed, read from the AST
@@ -8,8 +9,7 @@ TAG = module_int_consts('pyasn1/type/tag.py')   # tagClassUniversal ... tagForma
 VALID_TAG = ['singleTag[0] == 0 or singleTag[0] == 64 or singleTag[0] == 128 or singleTag[0] == 192',
              'singleTag[1] == 0 or singleTag[1] == 32', 'singleTag[2] >= 0']
 
-CONTRACTS = [
-    Contract(
+ENCODE_TAG = Contract(
         id='ber.encoder::AbstractItemEncoder.encodeTag', file=F, qual='AbstractItemEncoder.encodeTag',
         properties=['C01', 'C03', 'C13'],
         params=dict(self=PObj('AbstractItemEncoder'), singleTag=PTup(PInt(), PInt(), PInt()), isConstructed=PBool()),
@@ -22,9 +22,9 @@ CONTRACTS = [
                                   'X.b128(old(singleTag[2])) == X.cat(X.b128hi(tagId), substrate)',
                                   'isinstance(substrate, tuple)', 'X.inr(substrate)'],
                        variant='tagId')},
-        external=['ident', 'octets'],
-    ),
-    Contract(
+        external=['ident', 'octets'], returns=PIntTuple(),
+    )
+ENCODE_LENGTH = Contract(
         id='ber.encoder::AbstractItemEncoder.encodeLength', file=F, qual='AbstractItemEncoder.encodeLength',
         properties=['C01', 'C03', 'C07'],
         params=dict(self=PObj('AbstractItemEncoder', supportIndefLenMode=PBool()), length=PInt(), defMode=PBool()),
@@ -36,6 +36,81 @@ CONTRACTS = [
         loops={0: Loop(invariant=['length >= 0', 'X.be256(old(length)) == X.cat(X.be256(length), substrate)',
                                   'isinstance(substrate, tuple)', 'X.inr(substrate)'],
                        variant='length')},
-        external=['indef', 'definite-minimal', 'octets'],
-    ),
-]
+        external=['indef', 'definite-minimal', 'octets'], returns=PIntTuple(),
+    )
+
+
+def encode_value_model(ex, value, asn1Spec, encodeFun, **options):
+    """Assumed contract of the codec's encodeValue (abstract method; each concrete encodeValue is under its
+    own contract): returns (substrate, isConstructed, isOctets); substrate is bytes if isOctets else a tuple
+    of ints in range(256); a codec that does not support indefinite length never returns constructed
+    content, and constructed content is always octets (class invariant valid(codec), an obligation on each
+    concrete encodeValue); may raise PyAsn1Error."""
+    from z3 import Bool, Const, Not, Implies
+    from pyvc.core import S, truthy
+    if ex.choose(ex.fresh('encodeValue.raises', Bool('x').sort()), 'encodeValue-raises'):
+        raise _Raise(ExcV('PyAsn1Error'))
+    isC = ex.fresh('ev.isConstructed', Bool('x').sort())
+    isO = ex.fresh('ev.isOctets', Bool('x').sort())
+    sup = truthy(ex.env['self'].fields['supportIndefLenMode'])
+    ex.assume(Implies(Not(sup), Not(isC)))
+    ex.assume(Implies(isC, isO))      # constructed content is always assembled from encoded octets
+    z = ex.fresh('ev.content', S)
+    if ex.choose(isO, 'isOctets'):
+        sub = SeqV(z, 'bytes')
+        ex.assume(inr(z))
+    else:
+        sub = SeqV(z, 'tuple')
+        ex.assume(inr(z))
+    return Tup([sub, isC, isO])
+
+
+_AIE = class_consts(F, 'AbstractItemEncoder')     # eooIntegerSubstrate = (0, 0) is read from the real class body
+EOO_T = lit_seq(_AIE['eooIntegerSubstrate'], 'tuple')
+assert _AIE['eooOctetsSubstrate'] == ('expr', 'ints2octs(eooIntegerSubstrate)'), _AIE
+EOO_B = lit_seq(bytes(_AIE['eooIntegerSubstrate']), 'bytes')
+
+ENCODE = Contract(
+    id='ber.encoder::AbstractItemEncoder.encode', file=F, qual='AbstractItemEncoder.encode',
+    properties=['C01', 'C03', 'C07', 'C13'],
+    params=dict(self=PObj('AbstractItemEncoder', supportIndefLenMode=PBool(), eooIntegerSubstrate=PConst(EOO_T),
+                          eooOctetsSubstrate=PConst(EOO_B)),
+                superTags=PRecSeq(3),
+                value=PDerived(lambda ex, env: Obj('Asn1Item', {'tagSet': Obj('TagSet', {
+                    'superTags': env['superTags'], '__truthy__': Length(env['superTags'].cols[0]) > 0})})),
+                asn1Spec=PConst(None), encodeFun=PConst(None),
+                options=POptions(defMode=PBool(), ifNotEmpty=PBool())),
+    # `value` is built from superTags (value.tagSet.superTags; truthiness of a TagSet = it has tags)
+    requires=['X.all_tags_valid(superTags)'],
+    calls={'self.encodeTag': CallContract(ENCODE_TAG), 'self.encodeLength': CallContract(ENCODE_LENGTH),
+           'self.encodeValue': encode_value_model},
+    loops={0: Loop(index='idx',
+                   decl={'isConstructed': PBool(), 'isOctets': PBool(), 'substrate': PSeqKindBy('isOctets'),
+                         'defModeOverride': PBool()},
+                   invariant=['idx >= 1 ==> X.inr(substrate)'],
+                   iter_ensures=[
+                       # C01/C07: end-of-octets is appended exactly when the header just written is indefinite,
+                       # and the element is <identifier><length><previous content>[EOO]
+                       'idx == 0 ==> substrate == X.cat(last_result("self.encodeTag"), '
+                       'last_result("self.encodeLength"), last_result("self.encodeValue")[0], '
+                       '(X.seq(0, 0) if last_result("self.encodeLength") == (0x80,) else X.empty()))',
+                       'idx > 0 ==> substrate == X.cat(last_result("self.encodeTag"), '
+                       'last_result("self.encodeLength"), iter_old(substrate), '
+                       '(X.seq(0, 0) if last_result("self.encodeLength") == (0x80,) else X.empty()))',
+                       # C13: one header per tag, constructed bit for wrappers and constructed content only
+                       'last_result("self.encodeTag") == X.ident(singleTag[0], '
+                       '32 if (isConstructed or singleTag[1] == 32) else 0, singleTag[2])',
+                       # C03 (CER form rule): in indefinite mode every constructed level is indefinite,
+                       # every primitive level definite
+                       '(not options.get("defMode", True) and (idx > 0 or isConstructed)) ==> '
+                       'last_result("self.encodeLength") == (0x80,)',
+                       '(options.get("defMode", True) or (idx == 0 and not isConstructed)) ==> '
+                       'last_result("self.encodeLength") == X.length_def(last_args("self.encodeLength")[0])',
+                   ])},
+    ensures=[('is-bytes', 'len(superTags) > 0 ==> isinstance(result, bytes)')],
+    may_raise={'PyAsn1Error': True},
+    external=['is-bytes'],
+)
+
+CONTRACTS = [ENCODE_TAG, ENCODE_LENGTH, ENCODE]
+
